@@ -139,7 +139,8 @@ def eval_limiter(case, through_fastq=False):
 
     def tpath(t, mate=None):
         if through_fastq:
-            return d + sep + 'lib.%d.MXS.%s.fastq.gz' % (t, mate)
+            # two demultiplexing methods share one handle (demux.py with several strategies): cell index t//2 of method t%2
+            return d + sep + 'lib.%d.%s.%s.fastq.gz' % (t // 2, ('MXS', 'NLA')[t % 2], mate)
         return d + sep + 'cell%d.%s' % (t, 'gz' if gz else 'txt')
     for t in case.get('stale', []):
         for mate in (('R1', 'R2') if through_fastq else (None,)):
@@ -171,7 +172,7 @@ def eval_limiter(case, through_fastq=False):
 
         class Rec:
             def __init__(self, t, payload):
-                self.tags = {'bi': t, 'MX': 'MXS'}
+                self.tags = {'bi': t // 2, 'MX': ('MXS', 'NLA')[t % 2]}
                 self.payload = payload
 
             def __str__(self):
